@@ -44,6 +44,14 @@ PURE_FUNCS = {
     're.compile': re.compile, 're.split': re.split, 're.sub': re.sub, 're.escape': re.escape,
     'collections.defaultdict': collections.defaultdict, 'defaultdict': collections.defaultdict, 'collections.Counter': collections.Counter, 'Counter': collections.Counter,
 }
+def _windowed(seq, n, fillvalue=None, step=1):
+    seq = list(seq)
+    if len(seq) < n:
+        return [tuple(seq + [fillvalue] * (n - len(seq)))] if seq else []
+    return [tuple(seq[i:i + n]) for i in range(0, len(seq) - n + 1, step)]
+
+
+PURE_FUNCS.update({'windowed': _windowed, 'more_itertools.windowed': _windowed})
 PURE_FUNCS = {k: v for k, v in PURE_FUNCS.items() if v is not None}
 
 
